@@ -57,7 +57,7 @@ def main():
         ran["checks"] = {}
         if valid:
             for pid in pids:
-                c = sh([str(VERIF / "check"), pid, "--tier", tier], env=dict(os.environ, SERIF_REPO=str(wt)),
+                c = sh([str(VERIF / "check"), pid, "--tier", tier], env=dict(os.environ, SERIF_REPO=str(wt), VERIF_SHRINK_BUDGET=os.environ.get("VERIF_SHRINK_BUDGET", "40")),
                        cwd=str(VERIF), timeout=3600)
                 lines = [l[:400] for l in c.stdout.split("\n") if re.match(r"VIOLATION|KNOWN-FINDING|# C\d+", l)]
                 ran["checks"][pid] = {"exit": c.returncode, "tier": tier, "lines": lines[:8],
